@@ -439,7 +439,7 @@ func (s *mSide) genUpdate(rt *rapid.T, label string, o mOpOpts) string {
 // ranged UPDATE (constant or computed per row), ranged DELETE, or a block INSERT of new keys.
 func (s *mSide) genWide(rt *rapid.T, label string, o mOpOpts) string {
 	lo := rapid.IntRange(0, o.keyMax-1).Draw(rt, label+".wlo")
-	w := rapid.IntRange(o.wide/4, o.wide).Draw(rt, label+".wwidth")
+	w := rapid.IntRange(o.wide/2, o.wide).Draw(rt, label+".wwidth")
 	changed := 0
 	defer func() {
 		if changed > s.WideRows {
@@ -477,7 +477,7 @@ func (s *mSide) genWide(rt *rapid.T, label string, o mOpOpts) string {
 		}
 		return fmt.Sprintf("UPDATE {T} SET %s WHERE %s", set, p.sql(s))
 	case k < 8: // delete
-		p := mPred{kind: 1, lo: lo, hi: lo + w/2}
+		p := mPred{kind: 1, lo: lo, hi: lo + w}
 		for _, k := range s.T.Keys() {
 			if p.match(k) {
 				s.T.Delete(k)
@@ -494,7 +494,7 @@ func (s *mSide) genWide(rt *rapid.T, label string, o mOpOpts) string {
 			start = o.keyMax + rapid.IntRange(0, 50).Draw(rt, label+".wgap")
 		}
 		var tuples []string
-		for pk := start; pk < start+w/2+1; pk++ {
+		for pk := start; pk < start+w; pk++ {
 			row := make(vsql.Row, len(s.Cols))
 			row[0] = strconv.Itoa(pk)
 			if s.NPK == 2 {
@@ -1280,6 +1280,8 @@ type mTrack struct {
 	op     mOpOpts
 	hook   func(step int) []string // schema change callback (nil = none): see mSchemaChange.hook
 	step   int
+	// openWide: the history starts with one wide statement (op.wide > 0)
+	openWide bool
 }
 
 func (tr *mTrack) exec(rt *rapid.T, c *mCase, stmt string) {
@@ -1295,6 +1297,13 @@ func (tr *mTrack) exec(rt *rapid.T, c *mCase, stmt string) {
 // other side never touched.
 func mRunHistory(rt *rapid.T, c *mCase, label string, tracks []*mTrack, o mHistoryOpts) {
 	nc := rapid.IntRange(1, o.maxCommits).Draw(rt, label+".commits")
+	for ti, tr := range tracks {
+		if tr.openWide && tr.op.wide > 0 {
+			st := tr.side.genWide(rt, fmt.Sprintf("%s.open%d", label, ti), tr.op)
+			tr.side.Ops = append(tr.side.Ops, st)
+			tr.exec(rt, c, st)
+		}
+	}
 	for ci := 0; ci < nc; ci++ {
 		nops := rapid.IntRange(o.minOps, o.maxOps).Draw(rt, fmt.Sprintf("%s.c%d.nops", label, ci))
 		for oi := 0; oi < nops; oi++ {
